@@ -124,6 +124,6 @@ def axiom_sanity(reg):
             return [("axiom set '%s' (%d axioms) with concrete witnesses is not refutable" % (name, len(axs)), ok,
                      "z3: %s, cvc5: %s" % (r1, r2))]
         return run
-    users = {"seqref": ["C08"], "heap": ["C01"], "jhash": ["C13"], "seqstr": ["C13", "C18"]}
+    users = {"seqref": ["C08"], "heap": ["C01"], "jhash": ["C13"], "seqstr": ["C13", "C18", "C16", "C17"]}
     for name, props in users.items():
         reg.ground_obligation("axiom-sanity:" + name, props, check_set(name))
